@@ -1,3 +1,4 @@
+#![allow(dead_code)]
 //! rmv -- runtime-monitoring harness for reactive-mutiny (see /verif/DESIGN.md)
 //!
 //! usage: rmv <PROP> --lane ser|free --tier quick|thorough --seed S --shard I --nshards N --secs T --runs R --out FILE
@@ -9,6 +10,7 @@ mod payload;
 mod chan;
 mod common;
 mod drive;
+mod lin;
 mod props;
 
 use common::{Acc, Args};
@@ -51,6 +53,9 @@ fn main() {
     sched::install_hooks();
     let mut acc = Acc::new(&args);
     match args.prop.as_str() {
+        "C01" => props::c01::run(&args, &mut acc),
+        "C02" => props::c02::run(&args, &mut acc),
+        "C03" => props::c03::run(&args, &mut acc),
         "C04" => props::c04::run(&args, &mut acc),
         p => { eprintln!("unknown property {p}"); std::process::exit(2) }
     }
